@@ -11,7 +11,7 @@
    in TLC register 1 (needs -workers 1) by the state constraint Mark; the POSTCONDITION AllAccepted
    prints  <<"REJECTED", {start lines}>>  for the others and fails, which tools/vlib.py turns into
    per-execution verdicts. *)
-EXTENDS Naturals, Sequences, TLC, Json, IOUtils
+EXTENDS Naturals, Sequences, FiniteSets, TLC, Json, IOUtils
 
 Log    == ndJsonDeserialize(IOEnv.TRACE)
 Starts == {i \in 1..Len(Log) : Log[i].e = "Reset"}
@@ -30,9 +30,14 @@ IsEvent(name) == /\ l <= EndOf(ex)
 Done == l = EndOf(ex) + 1
 
 Mark == Done => TLCSet(1, TLCGet(1) \cup {ex})
-AllAccepted == IF TLCGet(1) = Starts THEN TRUE
-               ELSE PrintT(<<"REJECTED", Starts \ TLCGet(1)>>) /\ FALSE
+(* executions on which the oracle was deliberately silent (outside the property's precondition) are
+   counted in register 3, so that evidence can report them and vacuity is visible *)
+NoteSkipped(c) == (Done /\ c) => TLCSet(3, TLCGet(3) \cup {ex})
+AllAccepted == /\ PrintT(<<"SKIPPED", Cardinality(TLCGet(3))>>)
+               /\ IF TLCGet(1) = Starts THEN TRUE
+                  ELSE PrintT(<<"REJECTED", Starts \ TLCGet(1)>>) /\ FALSE
 ASSUME TLCSet(1, {})
+ASSUME TLCSet(3, {})
 
 (* helpers over JSON arrays (sequences) *)
 Range(s) == {s[i] : i \in 1..Len(s)}
